@@ -1,8 +1,11 @@
 (* C10 — renderings reflect the current state.  PARTIAL: in the model every rendering is a function
    of the current heap (no cache exists to go stale), and an assignment touches the assigned object
    only; the statement "equal to a freshly built database with the final content" (invariance of the
-   renderers under heap isomorphism) is not proved and rests on the tie + the rebuild oracle. *)
-From PyDBML Require Import PyStr Py Heap Classes RenderSQL RenderDBML Script ApiFacts.
+   renderers under heap isomorphism) is not proved and rests on the tie + the rebuild oracle.
+   Proved in addition (LiveLinks.v): every name a rendering takes from a LINKED object — the columns of an index or of
+   a reference, the table of a reference or of an index, the enum of a column type, the tables of a group, the owner of a
+   note — is the name in that object's CURRENT record, so the rendering after a rename shows the new name. *)
+From PyDBML Require Import PyStr Py Heap Classes Tools RenderSQL RenderDBML Script ApiFacts LiveLinks.
 Import ListNotations.
 
 Theorem C10_rendering_is_a_function_of_the_current_state_partial :
@@ -16,3 +19,81 @@ Theorem C10_store_touches_one_object :
   forall o ob h m, o <> m -> nth_error (fst (store o ob h)) m = nth_error h m.
 Proof. exact store_other. Qed.
 Print Assumptions C10_store_touches_one_object.
+
+(* ---- no stale names: linked names come from the current records ---- *)
+Theorem C10_index_ddl_names_columns_as_they_are_called_now :
+  forall h c cc, h_column h c = Some cc -> sql_subject h (SubCol c) = Ok (q2 (fstr (c_name cc))).
+Proof. exact sql_index_subject_current. Qed.
+Print Assumptions C10_index_ddl_names_columns_as_they_are_called_now.
+
+Theorem C10_index_ddl_names_its_table_as_it_is_called_now :
+  forall h i t tb s, i_pk i = false -> i_table i = Some t -> h_table h t = Some tb -> sql_index h i = Ok s ->
+  exists pre post, s = pre ++ s2l "ON " ++ full_name_for_sql (t_schema tb) (t_name tb) ++ cSP :: post.
+Proof. exact sql_index_table_current. Qed.
+Print Assumptions C10_index_ddl_names_its_table_as_it_is_called_now.
+
+Theorem C10_reference_ddl_names_columns_and_tables_as_they_are_called_now :
+  (forall h cols ccs, Forall2 (fun c cc => h_column h c = Some cc) cols ccs ->
+     col_names h cols = Ok (join (s2l ", ") (map (fun cc => q2 (fstr (c_name cc))) ccs))) /\
+  (forall h c rest cc t tb, h_column h c = Some cc -> c_table cc = Some t -> h_table h t = Some tb ->
+     first_table_full_name h (c :: rest) = Ok (full_name_for_sql (t_schema tb) (t_name tb))).
+Proof. split; [exact sql_col_names_current|exact sql_ref_table_current]. Qed.
+Print Assumptions C10_reference_ddl_names_columns_and_tables_as_they_are_called_now.
+
+Theorem C10_enum_typed_column_names_the_enum_as_it_is_called_now :
+  forall h c e en s, c_type c = CTEnum e -> h_enum h e = Some en -> sql_column h c = Ok s ->
+  exists pre post, s = pre ++ q2 (fstr (c_name c)) ++ cSP :: full_name_for_sql (e_schema en) (e_name en) ++ post.
+Proof. exact sql_column_enum_current. Qed.
+Print Assumptions C10_enum_typed_column_names_the_enum_as_it_is_called_now.
+
+Theorem C10_sql_comment_addresses_its_owner_as_it_is_called_now :
+  (forall h n p t, n_text n <> [] -> n_parent n = Some p -> h_table h p = Some t ->
+     sql_note h n = Ok (s2l "COMMENT ON TABLE " ++ full_name_for_sql (t_schema t) (t_name t) ++ s2l " IS " ++ cSQ :: prepare_text_for_sql (n_text n) ++ [cSQ; 59%N])) /\
+  (forall h n p c, n_text n <> [] -> n_parent n = Some p -> h_column h p = Some c ->
+     sql_note h n = Ok (s2l "COMMENT ON COLUMN " ++ q2 (fstr (c_name c)) ++ s2l " IS " ++ cSQ :: prepare_text_for_sql (n_text n) ++ [cSQ; 59%N])).
+Proof. split; [exact sql_note_owner_table_current|exact sql_note_owner_column_current]. Qed.
+Print Assumptions C10_sql_comment_addresses_its_owner_as_it_is_called_now.
+
+Theorem C10_dbml_reference_and_group_name_tables_and_columns_as_they_are_called_now :
+  (forall h cols ccs, Forall2 (fun c cc => h_column h c = Some cc) cols ccs ->
+     render_col h cols = Ok (match map (fun cc => q2 (fstr (c_name cc))) ccs with [n] => n | ns => 40%N :: join (s2l ", ") ns ++ [41%N] end)) /\
+  (forall h t tb, h_table h t = Some tb -> otable_full_name_dbml h (Some t) = Ok (full_name_for_dbml (t_schema tb) (t_name tb))) /\
+  (forall h g ts s, Forall2 (fun t tb => h_table h t = Some tb) (g_items g) ts -> dbml_group h g = Ok s ->
+     exists pre post, s = pre ++ concat (map (fun tb => s2l "    " ++ full_name_for_dbml (t_schema tb) (t_name tb) ++ [cLF]) ts) ++ post).
+Proof. split; [exact dbml_ref_columns_current|split; [exact dbml_table_name_current|exact dbml_group_items_current]]. Qed.
+Print Assumptions C10_dbml_reference_and_group_name_tables_and_columns_as_they_are_called_now.
+
+(* the record `obj.name = v` stores (Script.set_attr), and what the next rendering then shows *)
+Theorem C10_rename_is_what_the_next_rendering_shows :
+  (forall s o x v n, nth_error (st_heap s) o = Some (OColumn x) -> ostr_of v = Some n ->
+     set_attr s o 1 v = Some (store o (OColumn (with_cname n x)))) /\
+  (forall s o x v n, nth_error (st_heap s) o = Some (OTable x) -> ostr_of v = Some n ->
+     set_attr s o 1 v = Some (store o (OTable (with_tname n (t_schema x) x)))) /\
+  (forall s o x v n, nth_error (st_heap s) o = Some (OEnum x) -> ostr_of v = Some n ->
+     set_attr s o 1 v = Some (store o (OEnum (with_ename n (e_schema x) x)))) /\
+  (forall h c cc nm, h_column h c = Some cc -> c < length h ->
+     sql_subject (fst (store c (OColumn (with_cname nm cc)) h)) (SubCol c) = Ok (q2 (fstr nm))) /\
+  (forall h c rest cc t tb nm sc, h_column h c = Some cc -> c_table cc = Some t -> h_table h t = Some tb -> c <> t -> t < length h ->
+     first_table_full_name (fst (store t (OTable (with_tname nm sc tb)) h)) (c :: rest) = Ok (full_name_for_sql sc nm)) /\
+  (forall h c e en nm sc s, c_type c = CTEnum e -> h_enum h e = Some en -> e < length h ->
+     sql_column (fst (store e (OEnum (with_ename nm sc en)) h)) c = Ok s ->
+     exists pre post, s = pre ++ q2 (fstr (c_name c)) ++ cSP :: full_name_for_sql sc nm ++ post) /\
+  (forall h t tb nm sc, h_table h t = Some tb -> t < length h ->
+     otable_full_name_dbml (fst (store t (OTable (with_tname nm sc tb)) h)) (Some t) = Ok (full_name_for_dbml sc nm)).
+Proof.
+  repeat split.
+  - exact set_attr_column_name.
+  - exact set_attr_table_name.
+  - exact set_attr_enum_name.
+  - exact renamed_column_in_index_sql.
+  - exact renamed_table_in_reference_sql.
+  - exact renamed_enum_in_column_sql.
+  - exact renamed_table_in_group_dbml.
+Qed.
+Print Assumptions C10_rename_is_what_the_next_rendering_shows.
+
+Theorem C10_renamed_column_example :
+  sql_index ll_heap ll_idx = Ok (s2l "CREATE INDEX ON ""t"" (""old"");") /\
+  sql_index (fst (store 1 (OColumn (with_cname (Some (s2l "new")) ll_col)) ll_heap)) ll_idx = Ok (s2l "CREATE INDEX ON ""t"" (""new"");").
+Proof. exact renamed_column_example. Qed.
+Print Assumptions C10_renamed_column_example.
